@@ -174,9 +174,9 @@ fn token_vectors(g: &mut Gen, st: &mut Stats) -> CaseResult {
     Ok(())
 }
 
-fn check_arbitrary(input: &[u8]) -> CaseResult {
+/// Drive a tokenizer over arbitrary input past every error: it must end, stay ended, and yield at most one token per byte.
+fn drive(mut t: Tokenizer<'_, '_>, input: &[u8], what: &str) -> CaseResult {
     verif::arm(64 * input.len() as u64 + 1024);
-    let mut t = Tokenizer::new(input);
     let mut ok = 0usize;
     let mut total = 0usize;
     let mut ended = false;
@@ -185,9 +185,23 @@ fn check_arbitrary(input: &[u8]) -> CaseResult {
     }
     let more: Vec<bool> = (0 .. 3).map(|_| t.next().is_none()).collect();
     verif::disarm();
-    ensure!(ended, "does-not-end", "tokenising {} ({} bytes) yielded {} items without ending", short_hex(input), input.len(), total);
-    ensure!(ok <= input.len(), "too-many-tokens", "{} bytes yielded {} tokens", input.len(), ok);
-    ensure!(more.iter().all(|x| *x), "resumes-after-end", "the tokenizer of {} returned Some after None", short_hex(input));
+    ensure!(ended, "does-not-end", "{}: tokenising {} ({} bytes) yielded {} items without ending", what, short_hex(input), input.len(), total);
+    ensure!(ok <= input.len(), "too-many-tokens", "{}: {} bytes yielded {} tokens", what, input.len(), ok);
+    ensure!(more.iter().all(|x| *x), "resumes-after-end", "{}: the tokenizer of {} returned Some after None", what, short_hex(input));
+    Ok(())
+}
+
+/// Every way of obtaining a tokenizer: owning (`Tokenizer::new`, `From<Decoder>`) and borrowing (`Decoder::tokens`,
+/// `From<&mut Decoder>`); the borrowed ones must leave the decoder inside its input.
+fn check_arbitrary(input: &[u8]) -> CaseResult {
+    drive(Tokenizer::new(input), input, "Tokenizer::new")?;
+    drive(Tokenizer::from(minicbor::Decoder::new(input)), input, "Tokenizer::from(Decoder)")?;
+    let mut d = minicbor::Decoder::new(input);
+    drive(d.tokens(), input, "Decoder::tokens")?;
+    ensure!(d.position() <= input.len(), "position", "Decoder::tokens left the decoder at {} of {}", d.position(), input.len());
+    let mut d = minicbor::Decoder::new(input);
+    drive(Tokenizer::from(&mut d), input, "Tokenizer::from(&mut Decoder)")?;
+    ensure!(d.position() <= input.len(), "position", "Tokenizer::from(&mut Decoder) left the decoder at {} of {}", d.position(), input.len());
     Ok(())
 }
 
